@@ -103,7 +103,36 @@ def recheck_recent(ctx, wit):
         ctx.count("earlier_conditions_rechecked")
 
 
+def through_pointer(ctx, mod, buf):
+    """the sense reached through a C pointer (ctypes.POINTER(c_ubyte), what cast(sg_io_hdr.sbp, ...) gives a hand-made SG_IO
+    wrapper): it indexes and slices like the buffer it points to, so the condition reports what one built from those bytes does.
+    The backing array is a full 252-byte sense buffer (a pointer has no bounds)"""
+    import ctypes
+
+    padded = bytes(buf[:252]).ljust(252, b"\0")
+    arr = (ctypes.c_ubyte * 252)(*padded)
+    ptr = ctypes.cast(arr, ctypes.POINTER(ctypes.c_ubyte))
+    ctx.count("conditions_built_through_a_pointer")
+    try:
+        plain = mod.SCSICheckCondition(padded)
+    except Exception:  # noqa: BLE001
+        return  # judged by check()
+    wit = {"sense": padded[:32], "handed_over_as": "ctypes.POINTER(c_ubyte)"}
+    try:
+        exc = mod.SCSICheckCondition(ptr)
+        got = (exc.data, getattr(exc, "asc", None), getattr(exc, "ascq", None), str(exc))
+    except Exception as e:  # noqa: BLE001
+        ctx.fail("C08:construct_raises.through_pointer", "SCSICheckCondition(pointer to %s...) raised %s: %s" % (padded[:18].hex(), type(e).__name__, e), wit, exc=e)
+        return
+    want = (plain.data, getattr(plain, "asc", None), getattr(plain, "ascq", None), str(plain))
+    if repr(got) != repr(want):
+        ctx.fail("C08:through_pointer_differs", "the condition built through a pointer reports %r, the one built from the same bytes %r" % (got[1:], want[1:]), wit)
+
+
 def check(ctx, mod, ref, buf, want_text=True, sample=False):
+    STATE["ptr"] = STATE.get("ptr", 0) + 1
+    if STATE["ptr"] % 23 == 0 and len(buf):
+        through_pointer(ctx, mod, buf)
     fmt, deferred, key, asc, ascq = ref.parse(buf)
     rc = buf[0] & 0x7F
     cls = rcclass(rc)
@@ -216,7 +245,8 @@ def check(ctx, mod, ref, buf, want_text=True, sample=False):
 
 
 COMBOS = [["information"], ["ata_status"], ["information", "ata_status"], ["sense_key_specific", "fru"], ["forwarded"], ["command_specific", "information", "block"],
-          ["stream", "vendor"], ["information", "forwarded", "ata_status"]]
+          ["stream", "vendor"], ["information", "forwarded", "ata_status"], ["forwarded_status_only"], ["forwarded", "forwarded_status_only"], ["progress", "vendor_empty"],
+          ["user_data_segment", "forwarded_status_only"], ["direct_access_block"], ["osd_object_id", "information"]]
 
 
 def run_transport(shard, ctx):
@@ -328,7 +358,7 @@ def run(shard, ctx):
                 continue
             for cj in range(shard["combos"]):
                 combo = COMBOS[(idx + cj) % len(COMBOS)]
-                key = (0, 1, 2, 5, 6, 0xB)[(idx + cj) % 6]
+                key = (0, 1, 2, 5, 6, 0xB, 0xA, 3, 4, 7, 8, 9, 0xD, 0xE)[(idx + cj) % 14]
                 full = ref.build_with_descriptors((0x72, 0x73)[(idx + cj) % 2], key, asc, ascq, [ref.descriptor(k, rng) for k in combo])
                 for n in range(1, len(full) + 1):
                     check(ctx, mod, ref, full[:n], want_text=n >= 4)
